@@ -101,7 +101,12 @@ class Exec(ExprMixin, AccessMixin, CallMixin, StmtMixin, SpecMixin, HeapMixin, O
         try:
           if how == 'normal':
             result = NONE
-            if con.returns_ is not None:
+            if con.returns_ is not None and con.function_of_ is not None:
+              saved_env = s.env
+              argv = [self.to_val(s, self.eval_spec_value(old, e)) for e in con.function_of_]
+              f = z3.Function('fn_' + con.name.replace('.', '_'), *([Val] * len(argv) + [con.returns_.sort()]))
+              result = self.wrap(s, f(*argv), con.returns_)
+            elif con.returns_ is not None:
               result = self.make_result(s, con.returns_)
             extra = {'result': result}
             for ename, eexpr in con.ensures_:
